@@ -10,7 +10,7 @@ EXPLANATION = ('Static rules: I1 RepeatTask counts seq only by +1, only after th
                'iteration re-arms a fresh new_timer(self.interval) that replaces it (one period between ticks, never earlier however late '
                'the executor runs); I3 the stream drivers relay Some(v) as next, end with take()+complete (or error) and Ready, and '
                'construct Pending only by propagating the inner poll; the one-shot task functions have their documented shape (C03.S1) and '
-               'the _at forms convert the deadline in the right direction (C07.T2). I7 new_timer creates the backend timer in its own body (no async block around it): the clock of a timer starts at creation, which RepeatTask::new, the re-arm after a tick and interval_at rely on; I6 the future relay (FutureTask::poll, behind from_future/from_future_result) takes its observer out of the argument slot only after the inner future answered Ready and returns Pending only when the future did (a future pending k polls loses nothing); I5 every Scheduler::schedule awaits the delay timer to Ready before the first poll of the task, for every non-None delay (same rule as C19.H2); I4 timer and interval start their clock at subscription: the plain constructors do not read the clock (same rule as C13.Z1), the _at forms compute deadline - now forwards (same rule as C07.T2). Does not decide wall/virtual time ("exactly one '
+               'the _at forms convert the deadline in the right direction (C07.T2). I8 interval/interval_at/timer store the Duration they are given unaltered (no clamping or rounding of the period); I7 new_timer creates the backend timer in its own body (no async block around it): the clock of a timer starts at creation, which RepeatTask::new, the re-arm after a tick and interval_at rely on; I6 the future relay (FutureTask::poll, behind from_future/from_future_result) takes its observer out of the argument slot only after the inner future answered Ready and returns Pending only when the future did (a future pending k polls loses nothing); I5 every Scheduler::schedule awaits the delay timer to Ready before the first poll of the task, for every non-None delay (same rule as C19.H2); I4 timer and interval start their clock at subscription: the plain constructors do not read the clock (same rule as C13.Z1), the _at forms compute deadline - now forwards (same rule as C07.T2). Does not decide wall/virtual time ("exactly one '
                'period"), clock jumps or poll orders: timing is delegated to the timer future, which is trusted.')
 ASSUMPTIONS = ['the timer future completes no earlier than its duration']
 
@@ -29,7 +29,43 @@ def check(cx):
 
 
 def _check_own(cx):
-    return i12(cx) + ([] if cx.control else i3(cx) + i4(cx) + i5(cx) + i6(cx) + i7(cx))
+    return i12(cx) + ([] if cx.control else i3(cx) + i4(cx) + i5(cx) + i6(cx) + i7(cx) + i8(cx))
+
+
+def i8(cx):
+    """'exactly one period': the period / delay a caller hands to interval, interval_at and timer is the one the observable keeps —
+    wherever a builder in interval.rs / timer.rs puts a Duration parameter into the value it returns, it puts the parameter itself
+    (not a clamped, rounded or scaled version of it). The _at deadlines are C07.T2's."""
+    from ..expr import walk
+    F = cx.facts
+    res = []
+    n = 0
+    for fn in sorted(F.fns.values(), key=lambda f: f['key']):
+        if fn['kind'] not in ('fn', 'assoc_fn') or fn.get('file') not in ('src/observable/interval.rs', 'src/observable/timer.rs') or 'inputs' not in fn:
+            continue
+        durs = [i + 1 for i, t in enumerate(fn['inputs']) if F.adt_path(t) == 'std::time::Duration' and F.ty(t)['k'] == 'adt']
+        if not durs or fn.get('impl'):
+            continue
+        n += 1
+        g = cx.graph(fn['key'], inline=False)
+        bad = None
+        for x in g.nodes:
+            e = x.get('rhs') if x['kind'] == 'assign' else None
+            if e is None:
+                continue
+            for a in walk(e):
+                if a[0] == 'agg' and a[1] == 'adt':
+                    for op in a[3]:
+                        so = strip(op)
+                        if mentions(op, lambda z: z[0] == 'arg' and z[1] in durs) and not (so[0] == 'arg' and so[1] in durs) and not (so[0] == 'agg' and so[2].endswith('Option::Some') and so[3] and strip(so[3][0])[0] == 'arg'):
+                            bad = (x, op)
+        res.append(Finding(ID, 'I8', fn['path'], bad is None,
+                           'the Duration parameter is stored as it was given' if bad is None else
+                           'the period/delay given by the caller is altered before it is stored (%s): the ticks are no longer one (given) period apart' % render(bad[1])[:80],
+                           g.loc(bad[0]) if bad else fn['span']))
+    if n < 3:
+        res.append(Finding(ID, 'I8', 'floor', False, 'expected interval, interval_at and timer, found %d builder(s) with a Duration parameter' % n))
+    return res
 
 
 def i7(cx):
@@ -158,7 +194,7 @@ def i12(cx):
         FURS = roles.field_where(cx, tag, lambda t, ti: F.mentions(ti, lambda x: x['k'] == 'dyn' and any(tr['p'].endswith('Future') for tr in x['tr'])), 'timer future', unique=False)
         INTERVAL = roles.field_where(cx, tag, lambda t, ti: t['k'] == 'adt' and t['p'] == 'std::time::Duration', 'period')
         SEQ = roles.field_where(cx, tag, lambda t, ti: t['s'] == 'usize', 'sequence counter')
-        tasks = [x for x in g.nodes if x['kind'] == 'call' and x['name'] == '<fnptr>' and not x['ctx']]
+        tasks = [x for x in g.nodes if x['kind'] == 'call' and x['name'] == '<fnptr>']      # (possibly inside a private helper such as run_tick())
         fur_polls = {strip(x['value']) for x in g.nodes if x['kind'] == 'call' and x['name'].rsplit('::', 1)[-1] in ('poll_unpin', 'poll') and x['args']
                      and access_path(x['args'][0])[1][-1:] and access_path(x['args'][0])[1][-1] in FURS}
         # I2
